@@ -20,6 +20,10 @@ fn main() {
         println!("{}", all.len());
         return;
     }
+    if args.len() >= 2 && args[1] == "--calibrate" {
+        let child = std::thread::Builder::new().stack_size(1 << 30).spawn(move || suiron_monitor::props::timing::measure_depth()).unwrap();
+        match child.join() { Ok(d) => { println!("{}", d); return; } Err(_) => std::process::exit(3) }
+    }
     if args.len() >= 5 && args[1] == "--hist" {
         let a: Vec<String> = args[2..].to_vec();
         let child = std::thread::Builder::new().stack_size(1 << 30).spawn(move || suiron_monitor::props::timing::hist_main(&a)).unwrap();
